@@ -27,6 +27,22 @@ func storm(c *rig.Ctx) {
 		w(0xff40, 0x83|r.U8()&0x7c)
 		ys := []uint8{0, 1, 8, 15, 16, 17, 100, 143, 144, 152, 159, 160, 200, 255}
 		frames := 2 + r.Intn(3)
+		if i%4 == 3 {
+			// the LCD is restarted again and again before the vertical blank, window and objects
+			// showing (whatever the video hardware counts per frame must not run away)
+			w(0xff4a, uint8(r.Intn(8)))
+			w(0xff4b, uint8(7+r.Intn(60)))
+			for n := 0; n < 60; n++ {
+				w(0xff40, 0xe3|r.U8()&0x1c)
+				for t := 0; t < 114*(20+r.Intn(120)); t++ {
+					m.PPU.EndMachineCycle()
+					m.Mem.EndMachineCycle()
+				}
+				w(0xff40, 0x63)
+				c.Count("storm_lcd_restarts", 1)
+			}
+			w(0xff40, 0xe3)
+		}
 		for t := 0; t < frames*17556; t++ {
 			if r.Intn(3) == 0 {
 				switch r.Intn(12) {
